@@ -20,7 +20,7 @@ def main(path):
     for modname, tg in pd.get("contracts", []):
         if tg == target:
             cmod = importlib.import_module(modname)
-            c = [x for x in cmod.CONTRACTS if x.target == target][0]
+            c = [x for x in cmod.CONTRACTS if x.name == target][0]
             config = cmod.configs_for(c)[label] if hasattr(cmod, "configs_for") else {}
             rp = runner.native_replay(c, config, runner.unjson(det["inputs"]))
             print(json.dumps({k: rp.get(k) for k in ("violated", "result", "exception", "requires_ok")}, default=str))
